@@ -70,7 +70,7 @@ def _verdict(out):
 
 def _tlc_records(rec):
     return {'lines': rec['lines'], 'vid': rec['vid'], 'obs': [
-        {'kind': o['kind'], 'frames': o['frames'], 'lenok': o['lenok'], 'text': o['text'], 'pathpc': o.get('pathpc', False)} for o in rec['obs']]}
+        {'kind': o['kind'], 'frames': o['frames'], 'lenok': o['lenok'], 'text': o['text'], 'pathpc': o.get('pathpc', False), 'cut': o.get('cut', False)} for o in rec['obs']]}
 
 
 def _validate(ctx, recs, label):
@@ -103,7 +103,7 @@ def run(ctx):
         'a PC line below a running/ambiguous header',
         'a crashing goroutine that is locked to its thread ("[running, locked to thread]:") is reported as crash/no-running-goroutine; the '
         'property does not list it, it is recorded as an observation only',
-        'the name-length bound is observed on every result; names near 4096 bytes are exercised by C15',
+        'the name-length bound is observed on every result; 32 reports of 17 frames with 200..600-byte identifiers (first identifier growing in 10-byte steps) and one real crash through such functions exercise the cut; a cut name (truncation marker) must carry a proper prefix of the expected frames',
     ]
     ctx.inject('internal/crashmonitor', 'internal/verifh/c14')
 
@@ -143,6 +143,11 @@ def run(ctx):
     amb = [x for x in vrecs if x['amb']]
     if amb:
         raise Infra('ambiguous read-back of a name for a generated report (marker functions collide?): %s' % json.dumps(amb[0])[:800])
+    longs = [x for x in vrecs if x.get('src') == 'long']
+    ctx.cov['long_identifier_reports'] = len(longs)
+    ctx.cov['long_identifier_reports_cut'] = len([x for x in longs if x.get('cut')])
+    if longs and not any(x.get('cut') or x.get('namelen', 0) > 4096 for x in longs):
+        raise Infra('no long-identifier report reached the name-size limit; the length bound was not exercised')
     bad = _validate(ctx, vrecs, 'CrashParseTrace-vec')
     ctx.cov['traces_validated_against_impl'] += len(vrecs) - len(bad)
     ctx.cov['reports_replayed'] = len(vrecs)
@@ -168,6 +173,10 @@ def run(ctx):
         if x.get('locked'):
             locked += 1
             ctx.cov['observation_locked_to_thread'] = 'crash of a goroutine locked to its thread -> %s' % (x.get('name') or res)
+            continue
+        if res == 'name' and x.get('len', 0) > 4096:
+            ctx.violation(SIG[-1], {k: x.get(k) for k in ('scenario', 'len', 'got', 'cut')},
+                          'real crash "%s": %s (%d bytes)' % (x['scenario'], TEXT[-1], x['len']))
             continue
         if res == 'name' and x.get('frames_ok'):
             ctx.cov['traces_validated_against_impl'] += 1
